@@ -77,7 +77,7 @@ func pretouchTypeX86(_vt reflect.Type, opts option.CompileOptions, v uint8) (map
 
 	/* find or compile */
 	vt := rt.UnpackType(_vt)
-	if val := vars.GetProgram(vt); val != nil {
+	if val := vars.GetProgram(vt, v == 1); val != nil {
 		return nil, nil
 	} else if _, err := vars.ComputeProgram(vt, encoder, v == 1); err == nil {
 		return compiler.rec, nil
@@ -99,7 +99,7 @@ func pretouchRecX86(vtm map[reflect.Type]uint8, opts option.CompileOptions) erro
 		next := make(map[reflect.Type]uint8)
 		for vt, v := range vtm {
 			gvt := rt.UnpackType(vt)
-			if vars.GetProgram(gvt) != nil {
+			if vars.GetProgram(gvt, v == 1) != nil {
 				continue
 			}
 			if _, ok := pendings[gvt]; ok {
